@@ -32,11 +32,26 @@ HOST = "h.ex"
 # concretisation of the abstract stream
 # ---------------------------------------------------------------------------------------------
 def _pad_path(prefix, suffix, total, rnd, alphabet="abcdefghij/._-%41"):
+    """prefix + fill + suffix of exactly `total` BYTES (UTF-8).  Half of the fills are IRIs: raw multi-byte characters
+    and percent-escapes, so that cut points also fall inside a character / an escape."""
     n = total - len(prefix) - len(suffix)
     if n < 0:
         raise ValueError("line too short for %r...%r: %d" % (prefix, suffix, total))
-    fill = "".join(rnd.choice("abcdefghijklmnop") for _ in range(n))
-    return prefix + fill + suffix
+    if rnd.random() < 0.5:
+        fill = "".join(rnd.choice("abcdefghijklmnop") for _ in range(n))
+    else:
+        pieces = []
+        left = n
+        while left > 0:
+            c = rnd.choice(["a", "b", "\u00e9", "\u65e5", "\U0001F600", "%41", "\u00e9", "\u65e5"])
+            w = len(c.encode("utf-8"))
+            if w <= left:
+                pieces.append(c)
+                left -= w
+        fill = "".join(pieces)
+    out = prefix + fill + suffix
+    assert len(out.encode("utf-8")) == total
+    return out
 
 
 BAD_URLS = ["http://h.ex/", "gemini://u@h.ex/", "gemini:///nohost", "gemini://h.ex/#frag",
@@ -301,6 +316,10 @@ class ConnHarness:
         elif act == "TimerFire":
             nt = self.loop.next_timer()
             if nt is None:
+                if getattr(self, "lenient_timer", False):
+                    # "the request timeout elapses" when the implementation holds no timer: time passes, nothing happens
+                    self.loop.advance(31.0)
+                    return self.project()
                 raise RuntimeError("TimerFire: no timer pending")
             self.fired_at = nt
             self.loop.advance(nt - self.loop.time())
